@@ -49,7 +49,7 @@ try:
         shutil.copy(patch, os.path.join(d, "patch.diff"))
         shutil.copy(demo, os.path.join(d, "demo_test.go"))
         meta = {"id": sid, "origin": "written by an independent sub-agent that saw only the property text and a scratch worktree of ory/keto",
-                "breaks": [prop], "what": what, "needs_to_manifest": needs,
+                "breaks": prop.split(","), "what": what, "needs_to_manifest": needs,
                 "demonstration": {"file": "demo_test.go", "place_in": pkg, "command": cmd},
                 "confirmed": {"in": "scratch git worktree of /repo under /tmp (removed afterwards)",
                               "ran": ["git apply patch.diff", "go build ./...", cmd + "  (without patch: pass; with patch: fail)",
